@@ -188,6 +188,10 @@ mutual
     | dict (fields : Option (List Field)) (f : Flags)
     | obj (cls : Nat) (f : Flags)
     | union (cands : List Spec) (f : Flags)
+    /-- `pg.typing.Callable()` without argument specs: no value type; none of the modelled values is
+    callable, so it accepts only `None` (when noneable) — the candidate that opens `Union._apply`'s
+    converter fallback. -/
+    | callable (f : Flags)
   inductive Field where
     | mk (key : KeySpec) (value : Spec)
 end
@@ -198,7 +202,7 @@ namespace Spec
 
 def flags : Spec → Flags
   | .any f | .bool f | .int _ _ f | .float _ _ f | .str _ f | .enum _ f | .list _ _ _ f
-  | .tuple _ _ _ f | .dict _ f | .obj _ f | .union _ f => f
+  | .tuple _ _ _ f | .dict _ f | .obj _ f | .union _ f | .callable f => f
 
 def setFlags (g : Flags) : Spec → Spec
   | .any _ => .any g
@@ -212,16 +216,17 @@ def setFlags (g : Flags) : Spec → Spec
   | .dict fs _ => .dict fs g
   | .obj c _ => .obj c g
   | .union cs _ => .union cs g
+  | .callable _ => .callable g
 
 /-- The spec class (`__class__`), for `isinstance(other, self.__class__)`. -/
 inductive Kind where
-  | any | bool | int | float | str | enum | list | tuple | dict | obj | union
+  | any | bool | int | float | str | enum | list | tuple | dict | obj | union | callable
   deriving DecidableEq, Repr
 
 def kind : Spec → Kind
   | .any _ => .any | .bool _ => .bool | .int .. => .int | .float .. => .float | .str .. => .str
   | .enum .. => .enum | .list .. => .list | .tuple .. => .tuple | .dict .. => .dict
-  | .obj .. => .obj | .union .. => .union
+  | .obj .. => .obj | .union .. => .union | .callable .. => .callable
 
 end Spec
 
@@ -260,6 +265,7 @@ mutual
     | .dict .. => some [.dict]
     | .obj c _ => some [.obj c]
     | .union cands _ => vtUnion cands          -- 2653-2665
+    | .callable _ => none                      -- 2116: `callable_type` is None
   def vtUnion : List Spec → Option (List Ty)
     | [] => some []
     | c :: cs => match vt c, vtUnion cs with
@@ -397,6 +403,7 @@ mutual
         match v with
         | .obj _ _ part => if !p && part then .error .value else .ok v       -- 1948-1955
         | _ => .ok v
+    | .callable f, p, v => gate f p v fun _ => .error .type             -- 2151-2155: "Value is not callable"
     | .union cands f, p, v => gate f p v fun v => do
         let v ← typeCheck env (vtUnion cands) v
         match unionStrong env cands p v with                                 -- 2755-2762
@@ -587,6 +594,10 @@ mutual
       match b with
       | .obj oc g => !(!f.noneable && g.noneable) && env.sub oc c                           -- 1974
       | _ => false
+    | .callable f, b =>
+      match b with
+      | .callable g => !(!f.noneable && g.noneable)       -- 2277-2295 (no argument specs); an `Object`
+      | _ => false                                        -- class without `__call__` is refused (2265-2275)
     | .union cands f, b =>
       !(!f.noneable && b.flags.noneable) &&                                                -- F09 repair
       (leaves b).all (fun ob => anyCompat env cands ob)                                    -- 2823-2834
@@ -875,6 +886,10 @@ mutual
       | .ok (.go b) =>
         if isCompatible env b (.obj c f) then .ok (.obj c f) else .error .type              -- 1965
       | .ok _ => .ok (.obj c f)
+    | .callable f, base =>
+      match extendPre env (.callable f) base with
+      | .error e => .error e
+      | .ok _ => .ok (.callable f)                                                        -- 2254-2261
     | .union cands f, base =>
       match extendPre env (.union cands f) base with
       | .error e => .error e
@@ -981,6 +996,7 @@ mutual
     | .dict (some fields) _ => distinctKeys (fieldKeySpecs fields) && wfFields fields
     | .obj _ _ => true
     | .union cands _ => decide (2 ≤ cands.length) && wfList cands
+    | .callable _ => true
   def wfList : List Spec → Bool
     | [] => true
     | s :: ss => wf s && wfList ss
